@@ -125,6 +125,7 @@ class Rig:
         le_acl_num: int | list[int] | None = None,
         configs: list[DeviceConfiguration | None] | None = None,
         address_types: list[str] | None = None,
+        collide_addresses: bool = False,
     ):
         self.loop = asyncio.get_running_loop()
         self.rng = random.Random(seed)
@@ -148,6 +149,10 @@ class Rig:
         self.random_addresses = [
             ':'.join([f'{0xE0 + i:02X}'] * 6) for i in range(n)
         ]
+        if collide_addresses:
+            # device k's PUBLIC address has the same six bytes as device k+1's RANDOM
+            # address: anything that compares addresses without their type confuses them
+            self.addresses = [self.random_addresses[(i + 1) % n] for i in range(n)]
         self.controllers: list[Controller] = []
         self.hosts: list[Host] = []
         self.devices: list[Device] = []
